@@ -101,8 +101,6 @@ Encode(ss) == LET b == Flat(ss) IN Pack(b \o Ones((8 - (Len(b) % 8)) % 8))
 (* run): node key = 2^l + v for the pending bits <<v, l>>; root = 1.        *)
 (***************************************************************************)
 Key(v, l) == Pow2[l] + v
-InnerNodes == {<<CodeOf(s) \div Pow2[LenOf(s) - l], l>> : s \in Syms, l \in 0..29} \cap
-              {<<CodeOf(s) \div Pow2[LenOf(s) - l], l>> : s \in Syms, l \in 0..29}
 ProperPrefixes == UNION {{<<CodeOf(s) \div Pow2[LenOf(s) - l], l>> : l \in 0..(LenOf(s) - 1)} : s \in Syms}
 TrieEdges ==
     {LET v2 == 2 * n[1] + b
@@ -135,12 +133,12 @@ IntMore(bs, pos, i, m, big) ==
     IF pos > Len(bs) THEN [k |-> "trunc", v |-> 0, nx |-> pos]
     ELSE LET b    == bs[pos]
              part == b % 128
-             over == part # 0 /\ (m >= 28 \/ big)
-             i2   == IF part = 0 \/ m >= 28 \/ big THEN i ELSE i + part * Pow2[m]
+             add  == ~big /\ part # 0 /\ m < 28
+             i2   == IF add THEN i + part * Pow2[m] ELSE i
              big2 == big \/ (part # 0 /\ m >= 28) \/ i2 >= BigLimit
              m2   == IF m >= 28 THEN 28 ELSE m + 7
          IN IF b >= 128 THEN IntMore(bs, pos + 1, IF big2 THEN 0 ELSE i2, m2, big2)
-            ELSE IF big2 \/ over THEN [k |-> "big", v |-> 0, nx |-> pos + 1]
+            ELSE IF big2 THEN [k |-> "big", v |-> 0, nx |-> pos + 1]
             ELSE [k |-> "ok", v |-> i2, nx |-> pos + 1]
 
 DecodeInt(n, bs, start) ==
